@@ -142,7 +142,7 @@ func c16IndentMinimumOverAll(p *Prog) *RuleResult {
 				r.Instances++
 				key := fmt.Sprintf("CommentTextWithoutIndent lowers the running indent #%d", n)
 				var extra []string
-				for _, ifi := range controlDepIfs(pred) {
+				for _, ifi := range controlDepIfsTransitive(pred) {
 					// inside the same loop only
 					inLoop := false
 					for _, body := range loops {
